@@ -32,12 +32,68 @@ def langs_of(cs):
     return [[l, [[c.start, c.get_text()] for c in cs.get_captions(l)]] for l in cs.get_languages()]
 
 
-def build(cs):
+def build(cs, styles=None):
+    """cs: [[lang, [[start, end, text] or [start, end, text, class], ...]], ...]; styles: {class: {property: value}}"""
     d = {}
     for lang, cues in cs:
-        caps = [Caption(s, e, [CaptionNode.create_text(t)]) for s, e, t in cues]
+        caps = []
+        for cue in cues:
+            s, e, t = cue[:3]
+            kw = {"style": {"class": cue[3]}} if len(cue) > 3 and cue[3] is not None else {}
+            caps.append(Caption(s, e, [CaptionNode.create_text(t)], **kw))
         d[lang] = CaptionList(caps)
+    if styles:
+        return CaptionSet(d, styles={k: dict(v) for k, v in styles.items()})
     return CaptionSet(d)
+
+
+def norm(t):
+    return " ".join(t.split())
+
+
+def sheet_of(soup):
+    """the written stylesheet: [[class, lang], ...] for every block that declares a lang, in the order written"""
+    style = soup.find("style")
+    css = style.get_text() if style else ""
+    out = []
+    for m in re.finditer(r"\.([^\s{]+)\s*\{([^}]*)\}", css):
+        lm = re.search(r"(?:^|[\s;])lang\s*:\s*([^;]+);", m.group(2))
+        if lm:
+            out.append([m.group(1), lm.group(1).strip()])
+    return out
+
+
+def observe_sami(out):
+    soup = BeautifulSoup(out, "lxml")
+    body = []
+    for sync in soup.find_all("sync"):
+        ps = []
+        for p in sync.find_all("p"):
+            cls = p.get("class")
+            cls = " ".join(cls) if isinstance(cls, list) else cls
+            t = p.get_text().strip()
+            ps.append([cls, t if t else "&nbsp;"])
+        body.append([int(sync.get("start")), ps])
+    res = {"body": body, "sheet": sheet_of(soup), "doc": out}
+    try:
+        res["reread"] = langs_of(SAMIReader().read(out))
+    except Exception as e:  # noqa
+        res["reread_err"] = errname(e)
+    return res
+
+
+def observe_dfxp(out):
+    root = etree.fromstring(out.encode("utf-8"))
+    divs = []
+    for div in root.iter(TTML + "div"):
+        cues = [[us(p.get("begin")), norm("".join(p.itertext()))] for p in div.iter(TTML + "p")]
+        divs.append([div.get(XML + "lang"), cues])
+    res = {"tt": root.get(XML + "lang"), "divs": divs, "doc": out}
+    try:
+        res["reread"] = [[l, [[s, norm(t)] for s, t in c]] for l, c in langs_of(DFXPReader().read(out))]
+    except Exception as e:  # noqa
+        res["reread_err"] = errname(e)
+    return res
 
 
 def us(stamp):
@@ -74,45 +130,31 @@ def job(j):
         return {"langs": langs_of(DFXPReader().read(j["doc"]))}
     if op == "dfxp_write":
         W = {"main": DFXPWriter, "single": SinglePositioningDFXPWriter, "legacy": LegacyDFXPWriter}[j["writer"]]
-        cs = build(j["cs"])
+        cs = build(j["cs"], j.get("styles"))
         w = writer_for("dfxp-" + j["writer"], W)
         out = w.write(cs, force=j["force"]) if j["force"] is not None else w.write(cs)
-        root = etree.fromstring(out.encode("utf-8"))
-        divs = []
-        for div in root.iter(TTML + "div"):
-            cues = [[us(p.get("begin")), "".join(p.itertext()).strip()] for p in div.iter(TTML + "p")]
-            divs.append([div.get(XML + "lang"), cues])
-        res = {"tt": root.get(XML + "lang"), "divs": divs, "doc": out}
-        try:
-            res["reread"] = langs_of(DFXPReader().read(out))
-        except Exception as e:  # noqa
-            res["reread_err"] = errname(e)
+        return observe_dfxp(out)
+    if op == "pipeline":
+        # a READER's output (styles, classes, layouts and all) fed into a WRITER, then read again
+        R = {"sami": SAMIReader, "dfxp": DFXPReader}[j["src"]]
+        cs = R().read(j["doc"])
+        first = [[l, [[c.start, c.end, norm(c.get_text())] for c in cs.get_captions(l)]] for l in cs.get_languages()]
+        if j["via"] == "sami":
+            res = observe_sami(SAMIWriter().write(cs))
+        else:
+            W = {"main": DFXPWriter, "single": SinglePositioningDFXPWriter, "legacy": LegacyDFXPWriter}[j["via"]]
+            res = observe_dfxp(W().write(cs))
+        res["first"] = first
+        if "reread" in res:
+            res["reread"] = [[l, [[s, norm(t)] for s, t in c]] for l, c in res["reread"]]
         return res
     if op == "sami_read":
         return {"langs": langs_of(SAMIReader().read(j["doc"]))}
     if op == "sami_write":
-        cs = build(j["cs"])
-        out = writer_for("sami", SAMIWriter).write(cs)
-        soup = BeautifulSoup(out, "lxml")
-        body = []
-        for sync in soup.find_all("sync"):
-            ps = []
-            for p in sync.find_all("p"):
-                cls = p.get("class")
-                cls = " ".join(cls) if isinstance(cls, list) else cls
-                t = p.get_text().strip()
-                ps.append([cls, t if t else "&nbsp;"])
-            body.append([int(sync.get("start")), ps])
-        style = soup.find("style")
-        classes = re.findall(r"\.([^\s{]+)\s*\{", style.get_text() if style else "")
-        res = {"body": body, "classes": classes, "doc": out}
-        try:
-            res["reread"] = langs_of(SAMIReader().read(out))
-        except Exception as e:  # noqa
-            res["reread_err"] = errname(e)
-        return res
+        cs = build(j["cs"], j.get("styles"))
+        return observe_sami(writer_for("sami", SAMIWriter).write(cs))
     if op == "vtt_write":
-        cs = build(j["cs"])
+        cs = build(j["cs"], j.get("styles"))
         vw = writer_for("vtt", WebVTTWriter)
         out = vw.write(cs, lang=j["lang"]) if "lang" in j else vw.write(cs)
         rd = WebVTTReader().read(out, lang="x") if out.strip() != "WEBVTT" else None
@@ -125,7 +167,7 @@ def job(j):
         res = []
         for part in parts:
             rd = SRTReader().read(part, lang="x") if part.strip() else None
-            res.append([[c.start, c.get_text()] for c in rd.get_captions("x")] if rd else [])
+            res.append([[c.start, norm(c.get_text())] for c in rd.get_captions("x")] if rd else [])
         return {"parts": res, "doc": out}
     if op == "reader_lang":
         R = {"srt": SRTReader, "webvtt": WebVTTReader, "scc": SCCReader, "microdvd": MicroDVDReader}[j["fmt"]]
